@@ -178,17 +178,17 @@ func (x *Exec) modsOfCall(m *modSet, fn *ssa.Function, ci ssa.CallInstruction, s
 	c := ci.Common()
 	if c.IsInvoke() {
 		key := funcKeyOf(c.Method)
-		x.modsOfSpec(m, x.w.FuncSpecs[key], key)
+		x.modsOfSpec(m, x.w.FuncSpecs[key], key, ci)
 		return
 	}
 	switch v := c.Value.(type) {
 	case *ssa.Builtin:
 		return
 	case *ssa.Function:
-		x.modsOfStatic(m, v, nil, seen)
+		x.modsOfStatic(m, v, ci, seen)
 		// closures passed as arguments to in-repo inlined callees or iterator schemas are executed too
 		for _, a := range c.Args {
-			if mc, ok := a.(*ssa.MakeClosure); ok {
+			if mc := findClosure(a, 0); mc != nil {
 				x.modsOfClosure(m, fn, mc, seen)
 			}
 		}
@@ -218,12 +218,46 @@ func (x *Exec) modsOfCall(m *modSet, fn *ssa.Function, ci ssa.CallInstruction, s
 	}
 }
 
-func (x *Exec) modsOfStatic(m *modSet, callee *ssa.Function, bind []ssa.Value, seen map[*ssa.Function]bool) {
+// actualArgType finds the static type of the actual argument bound to spec parameter `name`
+// (looking through a conversion to an interface type).
+func (x *Exec) actualArgType(spec *FuncSpec, name string, ci ssa.CallInstruction) types.Type {
+	c := ci.Common()
+	var actual []ssa.Value
+	if c.IsInvoke() {
+		actual = append(actual, c.Value)
+	}
+	actual = append(actual, c.Args...)
+	k := 0
+	if spec.Recv != nil {
+		if spec.Recv.Name == name && len(actual) > 0 {
+			return throughIface(actual[0])
+		}
+		k = 1
+	}
+	for i, p := range spec.Params {
+		if p.Name == name && k+i < len(actual) {
+			return throughIface(actual[k+i])
+		}
+	}
+	return nil
+}
+
+func throughIface(v ssa.Value) types.Type {
+	if mi, ok := v.(*ssa.MakeInterface); ok {
+		return mi.X.Type()
+	}
+	if _, isI := types.Unalias(v.Type()).Underlying().(*types.Interface); isI {
+		return nil
+	}
+	return v.Type()
+}
+
+func (x *Exec) modsOfStatic(m *modSet, callee *ssa.Function, ci ssa.CallInstruction, seen map[*ssa.Function]bool) {
 	key := fnKey(callee)
 	spec := x.w.FuncSpecs[key]
 	inRepo := callee.Pkg != nil && len(callee.Blocks) > 0 && callee.Pkg.Pkg != nil && len(callee.Pkg.Pkg.Path()) >= len(repoModule) && callee.Pkg.Pkg.Path()[:len(repoModule)] == repoModule
 	if spec != nil && !(spec.Inline && inRepo) {
-		x.modsOfSpec(m, spec, key)
+		x.modsOfSpec(m, spec, key, ci)
 		return
 	}
 	if !inRepo {
@@ -269,7 +303,7 @@ func (x *Exec) modsOfClosure(m *modSet, parent *ssa.Function, mc *ssa.MakeClosur
 	}
 }
 
-func (x *Exec) modsOfSpec(m *modSet, spec *FuncSpec, key string) {
+func (x *Exec) modsOfSpec(m *modSet, spec *FuncSpec, key string, ci ssa.CallInstruction) {
 	if spec == nil {
 		m.all = true
 		return
@@ -282,13 +316,34 @@ func (x *Exec) modsOfSpec(m *modSet, spec *FuncSpec, key string) {
 			m.all = true
 			return
 		}
+		if a.Owner != nil {
+			t, err := x.w.ResolveType(funcHome[spec], a.Owner)
+			if err != nil {
+				m.all = true
+				return
+			}
+			for i, f := range x.w.StructFields(t) {
+				if f.Name == a.Field {
+					m.addField(x.w, t, i)
+				}
+			}
+			continue
+		}
+		// assigns *p for an interface-typed parameter: the pointee of the actual argument
+		if u, ok := a.Expr.(*SUnary); ok && u.Op == "*" {
+			if id, ok := u.X.(*SIdent); ok && ci != nil {
+				if at := x.actualArgType(spec, id.Name, ci); at != nil {
+					if pt, ok := types.Unalias(at).Underlying().(*types.Pointer); ok {
+						m.addField(x.w, pt.Elem(), -1)
+						continue
+					}
+				}
+			}
+		}
 		// assigns x.f : resolve the static type of x from the spec parameter types
 		if !x.modsOfAssignExpr(m, spec, a.Expr) {
 			m.all = true
 		}
-	}
-	for range spec.Fresh {
-		// fresh results allocate: contents of new objects only
 	}
 }
 
@@ -327,6 +382,12 @@ func (x *Exec) staticSpecType(spec *FuncSpec, e SExpr) types.Type {
 				return t
 			}
 		}
+	case *SAssert:
+		t, err := x.w.ResolveType(sf, v.Type)
+		if err != nil {
+			return nil
+		}
+		return t
 	case *SSelect:
 		t := x.staticSpecType(spec, v.X)
 		if t == nil {
